@@ -109,6 +109,9 @@ func sectionReadUint() {
 					}
 					R.Eval(fmt.Sprintf("RU/%d/%d/%d/%v", L, off, w, pk))
 					paths[path]++
+					if wantErr && err != nil && s.BitsAvailableForRead() != L-off {
+						viol("cursor-moved-by-failed-read@ReadUint", wit)
+					}
 					if wantErr != (err != nil) {
 						wit["err"] = fmt.Sprint(err)
 						viol("error-mismatch@ReadUint/"+path, wit)
@@ -137,6 +140,9 @@ func sectionReadUint() {
 						var gi int64
 						if guard("ReadInt", wit, func() { gi, err = s.ReadInt(w) }) {
 							R.Eval("")
+							if wantErr && err != nil && s.BitsAvailableForRead() != L-off {
+								viol("cursor-moved-by-failed-read@ReadInt", wit)
+							}
 							if wantErr != (err != nil) {
 								viol("error-mismatch@ReadInt/"+path, wit)
 							} else if !wantErr && gi != rb.ToInt(bitsv[off:off+w]) {
@@ -1057,20 +1063,20 @@ func readPhase(t *target, model *rb.List, rng *mon.Rng, seq int, wtrace []wop) {
 				return
 			}
 		}
-		// cursor agreement after every successful step
+		// cursor agreement after every step. A failed read must leave the cursor where it was:
+		// otherwise the reads that follow no longer return the values written (they come back
+		// shifted). The one exception is a failed ReadUnary, which by its nature has consumed the
+		// run of ones it could not finish (everything up to the end): only errors can follow, never
+		// wrong data; it is handled in its own case above.
 		if av := availOf(t, s); av != model.Avail() {
-			// after a failed read tongo may or may not have moved; the property only
-			// demands an error, so resynchronise instead of flagging
 			if err != nil {
-				model.Cur = model.Len() - av
-				if model.Cur < 0 || model.Cur > model.Len() {
-					mismatch("cursor-out-of-range")
-					return
-				}
-			} else {
-				mismatch("cursor")
+				wit["reads"] = rtrace
+				wit["available_after_failed_read"], wit["available_before"] = av, model.Avail()
+				viol("cursor-moved-by-failed-read@"+lastOp(rtrace), wit)
 				return
 			}
+			mismatch("cursor")
+			return
 		}
 		R.Count("read_ops", 1)
 	}
@@ -1367,4 +1373,17 @@ func main() {
 	sectionFift()
 	R.Sample(map[string]any{"kind": "exhaustive-read", "example": "len=1023 offset=57 width=57 pattern=random -> ReadUint/PickUint/ReadInt vs model"})
 	os.Exit(R.Finish())
+}
+
+func lastOp(trace []string) string {
+	if len(trace) == 0 {
+		return "?"
+	}
+	op := trace[len(trace)-1]
+	for i := 0; i < len(op); i++ {
+		if op[i] == '(' {
+			return op[:i]
+		}
+	}
+	return op
 }
